@@ -4,6 +4,7 @@ import common as C
 import statelib
 from framework import Unit
 
+PROPS_FILES = ['C02', 'C02ext']
 IMPORTS = 'From Gen Require Import enums core exec.'
 SPEC_IMPORTS = ('From ArmV Require Import Spec.Pseudocode Spec.Arch Spec.MachineView Spec.DPSem Spec.LoadStore Spec.Hub Spec.Memory.')
 SR = {'LSL': 1, 'LSR': 2, 'ASR': 3, 'ROR': 4, 'RRX': 5}
@@ -152,6 +153,8 @@ def extra_cases(rng, tier):
                 v['add'], v['index'], v['wback'] = 1, 1, 0
             v['n'] = rng.choice([0, 1, 2, 3, 13, 14])
             v['t'] = rng.choice([4, 5, 6, 7, 12])
+            if cls == 'LdrRegisterThumb' and rng.random() < 0.3:
+                v['t'] = 15         # LDR pc, [rn, rm]: LoadWritePC(data) when the address is word-aligned
             v['m'] = rng.choice([8, 9, 10])
             v['imm32'] = rng.choice([0, 1, 2, 3, 4, 5, 8, 0xFF, 0xFFF])
             v['shift_t'], v['shift_n'] = rng.choice([(1, 0), (1, 2), (2, 1), (3, 31), (4, 8), (5, 1)]) if 'shift_t' in fields else (1, 0)
@@ -199,4 +202,6 @@ def units():
             'C02_STRB_reg', 'C02_rd_ok_flat', 'C02_wr_ok_flat']
     needs = ['opcodes.abstract_opcodes.%s.%s.execute' % (mod, cls) for (cls, mod, _, _, _) in CLASSES]
     return [Unit('load_store', thms, ['Proofs/LSProofs.v', 'Proofs/MemProofs.v'], needs, cases, IMPORTS, SPEC_IMPORTS),
-            Unit('load_store_extra', [], [], [], extra_cases, IMPORTS, SPEC_IMPORTS)]
+            Unit('load_store_extra', ['C02_' + cls for (cls, _, _, _) in EXTRA] + ['C02_rd_ok_flat_unpriv', 'C02_wr_ok_flat_unpriv'],
+                 ['Proofs/LSProofs2.v', 'Proofs/LSProofs3.v'],
+                 ['opcodes.abstract_opcodes.%s.%s.execute' % (snake(cls), cls) for (cls, _, _, _) in EXTRA], extra_cases, IMPORTS, SPEC_IMPORTS)]
